@@ -4,6 +4,7 @@ CONSTANTS
   MaxEnv = 16384
   Nums = {5, 6, 7, 9, 11, 12, 13}
   MaxFields = 2
+  Fanout = 0
   ExportMin = 0
   Broken = FALSE
 INVARIANTS Equiv NeverDowngraded OnlyListed Emit
